@@ -411,8 +411,8 @@ impl UnconvertibleEntityTypeShapeError {
 /// Convert a [`json_schema::Fragment`] to a string containing the Cedar schema syntax
 ///
 /// As of this writing, this existing code throws an error if any
-/// fully-qualified name in a non-empty namespace is a valid common type and
-/// also a valid entity type.
+/// fully-qualified name (in any namespace, including the empty namespace) is a
+/// valid common type and also a valid entity type.
 //
 // Two notes:
 // 1) This check is more conservative than necessary. Schemas are allowed to
@@ -427,7 +427,7 @@ pub fn json_schema_to_cedar_schema_str<N: Display>(
     json_schema: &json_schema::Fragment<N>,
 ) -> Result<String, ToCedarSchemaSyntaxError> {
     let mut name_collisions: Vec<InternalName> = Vec::new();
-    for (name, ns) in json_schema.0.iter().filter(|(name, _)| !name.is_none()) {
+    for (name, ns) in json_schema.0.iter() {
         let entity_types: HashSet<InternalName> = ns
             .entity_types
             .keys()
